@@ -425,8 +425,10 @@ theorem run_count (C : Counter) : ∀ (ops : List Op) (s s' : St), run s ops = .
     · exact ih s s' h ok
     · cases h
 
-theorem CountOK_init (C : Counter) (h0 : C.π {} = 0) : CountOK C St.init := by
+theorem CountOK_init (C : Counter) (h0 : C.π {} = 0) (hk : C.k0 ≠ .prog) : CountOK C St.init := by
   unfold CountOK St.init lc
-  simp [h0]
+  have hne : (Kind.prog == C.k0) = false := by
+    cases h : C.k0 <;> simp_all
+  simp [h0, List.countP_cons, hne]
 
 end NV.C06
